@@ -20,6 +20,7 @@ import (
 	cidlink "github.com/ipld/go-ipld-prime/linking/cid"
 	"github.com/ipld/go-ipld-prime/multicodec"
 	"github.com/ipld/go-ipld-prime/node/basicnode"
+	"github.com/ipld/go-ipld-prime/node/bindnode"
 	"github.com/ipld/go-ipld-prime/node/gendemo"
 	"github.com/ipld/go-ipld-prime/schema"
 	"github.com/ipld/go-ipld-prime/traversal"
@@ -27,8 +28,11 @@ import (
 	"github.com/ipld/go-ipld-prime/zzverif/ref/gen"
 	"github.com/ipld/go-ipld-prime/zzverif/ref/graph"
 	"github.com/ipld/go-ipld-prime/zzverif/ref/nodecheck"
+	"github.com/ipld/go-ipld-prime/zzverif/ref/refcbor"
+	"github.com/ipld/go-ipld-prime/zzverif/ref/refschema"
 	"github.com/ipld/go-ipld-prime/zzverif/ref/refval"
 	"github.com/ipld/go-ipld-prime/zzverif/ref/selgen"
+	"github.com/ipld/go-ipld-prime/zzverif/schemas"
 )
 
 var allRec = &selgen.Sel{Op: 'R', LimitNone: true, Subs: []*selgen.Sel{{Op: '|', Subs: []*selgen.Sel{{Op: '.'}, {Op: 'a', Subs: []*selgen.Sel{{Op: '@'}}}}}}}
@@ -127,6 +131,82 @@ func sharedRead(op int, shared, shared2, g, streamed datamodel.Node, v *refval.V
 			}
 		}
 	}
+}
+
+var sharedTypeNames = []string{"UnionK", "UnionSP", "UnionKinded", "Plain", "OptComp", "MapSU", "EnumS", "Tuple"}
+
+// HSharedTypes: a finished type system handed to several goroutines before anything was asked of
+// it: creating bindings (inferred and user-supplied Go types), building through them, reading
+// typed and representation views of a shared reflection-bound node, and querying the types.
+func HSharedTypes() {
+	ts := schemas.TypeSystem()
+	name := sharedTypeNames[nd.Choose("type", nd.Param("TYPES", len(sharedTypeNames)))]
+	t := schemas.ByName(name)
+	g := &refschema.G{}
+	v := g.Gen(t)
+	op := nd.Choose("op", 4)
+	var sharedProto schema.TypedPrototype
+	var sharedNode datamodel.Node
+	if op >= 2 {
+		// a prototype / node made before sharing
+		sharedProto = bindnode.Prototype(schemas.GoPtr(name), ts.TypeByName(name))
+		nb := sharedProto.NewBuilder()
+		if refschema.Assign(nb, v) != nil {
+			panic("setup")
+		}
+		sharedNode = nb.Build()
+	}
+	inferred := nd.Choose("inferred", 2) == 1
+	nd.Freeze()
+	nd.Concurrent(func() {
+		switch op {
+		case 0: // first use of the type: create a binding, build, read both views
+			var ptr interface{}
+			if !inferred {
+				ptr = schemas.GoPtr(name)
+			}
+			p := bindnode.Prototype(ptr, ts.TypeByName(name))
+			nb := p.NewBuilder()
+			nd.Assert(refschema.Assign(nb, v) == nil, "build through a binding created from the shared type system")
+			n := nb.Build()
+			nd.Assert(refval.Equal(refval.Of(n), v), "the built node presents the value")
+			nd.Assert(refval.Equal(refval.Of(n.(schema.TypedNode).Representation()), refschema.Repr(t, v)), "and its representation")
+		case 1: // first use: questions to the type system itself
+			st := ts.TypeByName(name)
+			nd.Assert(st != nil && string(st.Name()) == name, "TypeByName")
+			switch x := st.(type) {
+			case *schema.TypeUnion:
+				nd.Assert(len(x.Members()) == len(t.Members), "a union reports all its members")
+				x.RepresentationStrategy()
+			case *schema.TypeStruct:
+				nd.Assert(len(x.Fields()) == len(t.Fields), "a struct reports all its fields")
+				for _, f := range x.Fields() {
+					f.Type()
+					x.Field(f.Name())
+				}
+				x.RepresentationStrategy()
+			case *schema.TypeMap:
+				x.KeyType()
+				x.ValueType()
+			case *schema.TypeEnum:
+				nd.Assert(len(x.Members()) == len(t.Members), "an enum reports all its members")
+			}
+			ts.Names()
+		case 2: // build from a shared prototype, at both levels
+			nb := sharedProto.NewBuilder()
+			nd.Assert(refschema.Assign(nb, v) == nil, "build from a shared prototype")
+			nb2 := sharedProto.Representation().NewBuilder()
+			nd.Assert(refschema.Assign(nb2, refschema.Repr(t, v)) == nil, "build from a shared representation prototype")
+			nd.Assert(datamodel.DeepEqual(nb.Build(), nb2.Build()), "both builds are equal")
+		case 3: // read and encode a shared reflection-bound node
+			nd.Assert(refval.Equal(refval.Of(sharedNode), v), "shared typed node reads as built")
+			var b bytes.Buffer
+			nd.Assert(dagcbor.Encode(sharedNode.(schema.TypedNode).Representation(), &b) == nil, "encode the representation of a shared node")
+			nd.Assert(nd.EqBytes(b.Bytes(), refcbor.Encode(nil, refschema.Repr(t, v))), "encoding of the shared node")
+		}
+	})
+	nd.Thaw()
+	nd.Reach("end")
 }
 
 // HSharedWalk: walks with a shared compiled selector and a shared Config over a shared graph,
